@@ -173,6 +173,8 @@ struct Cond {
     /// source tree on the tmpfs directory (if there is one)
     tmpfs: bool,
     workers: Option<usize>,
+    /// move the clocks forward by an hour before every k-th storage operation (LD_PRELOAD shim)
+    clock_jump: Option<usize>,
 }
 
 fn tmpfs_base() -> Option<PathBuf> {
@@ -220,7 +222,7 @@ struct Replay {
 }
 
 fn icfg(cond: &Cond, op_index: usize, crash_at: Option<usize>) -> IceptConfig {
-    IceptConfig { shuffle: cond.shuffle.map(|s| s.wrapping_mul(0x9E37_79B9).wrapping_add(op_index as u64)), crash_at, ..Default::default() }
+    IceptConfig { shuffle: cond.shuffle.map(|s| s.wrapping_mul(0x9E37_79B9).wrapping_add(op_index as u64)), crash_at, clock_jump_every: cond.clock_jump, ..Default::default() }
 }
 
 /// hist.rs::run_history with the interceptor configuration, the creation order of the source
@@ -527,7 +529,7 @@ fn gc_lock_probe(thorough: bool, report: &mut Report) {
 // ---------------------------------------------------------------------------------------------
 
 fn cond_json(c: &Cond) -> Value {
-    json!({"name": c.name, "shuffle_listings": c.shuffle, "source_creation_order": format!("{:?}", c.order), "source_on_tmpfs": c.tmpfs, "runtime_workers": c.workers})
+    json!({"name": c.name, "shuffle_listings": c.shuffle, "source_creation_order": format!("{:?}", c.order), "source_on_tmpfs": c.tmpfs, "runtime_workers": c.workers, "clock_jump_every_n_ops": c.clock_jump})
 }
 
 fn same_multiset(a: &[String], b: &[String]) -> bool {
@@ -558,16 +560,24 @@ pub fn run(tier: &str, seed: u64, report: &mut Report) {
         let case_id = json!({"case_seed": case_seed, "steps": history_json(&steps)});
         let w = [1usize, 4, 16];
         let mut conds = vec![
-            Cond { name: "plain".into(), shuffle: None, order: MatOrder::Normal, tmpfs: false, workers: None },
-            Cond { name: "shuffle-a".into(), shuffle: Some(rng.next_u64() | 1), order: MatOrder::Normal, tmpfs: false, workers: None },
+            Cond { name: "plain".into(), shuffle: None, order: MatOrder::Normal, tmpfs: false, workers: None, clock_jump: None },
+            Cond { name: "shuffle-a".into(), shuffle: Some(rng.next_u64() | 1), order: MatOrder::Normal, tmpfs: false, workers: None, clock_jump: None },
         ];
         let mt: Vec<usize> = if thorough { w.to_vec() } else { vec![w[h % 3]] };
         for n in mt {
-            conds.push(Cond { name: format!("reorder-mt{n}"), shuffle: None, order: MatOrder::Reverse, tmpfs: true, workers: Some(n) });
+            conds.push(Cond { name: format!("reorder-mt{n}"), shuffle: None, order: MatOrder::Reverse, tmpfs: true, workers: Some(n), clock_jump: None });
         }
         let n4 = w[(h + 1) % 3];
-        conds.push(Cond { name: format!("shuffle-b+random-order+mt{n4}"), shuffle: Some(rng.next_u64() | 1), order: MatOrder::Shuffled(rng.next_u64()), tmpfs: true, workers: Some(n4) });
+        conds.push(Cond { name: format!("shuffle-b+random-order+mt{n4}"), shuffle: Some(rng.next_u64() | 1), order: MatOrder::Shuffled(rng.next_u64()), tmpfs: true, workers: Some(n4), clock_jump: None });
 
+        // elapsed / wall-clock time must not leak into what is written: one replay with the clocks jumping
+        // ahead by an hour every few storage operations (only when started under the clock shim)
+        if crate::clock::available() {
+            conds.push(Cond { name: "clock-jumps".into(), shuffle: None, order: MatOrder::Normal, tmpfs: false, workers: None, clock_jump: Some(3 + h % 4) });
+        } else if h == 0 {
+            report.notes.push("clock shim not loaded (LD_PRELOAD harness/target/clockshim.so): the clock-jump replay is skipped".into());
+            report.hit("clock-shim-missing");
+        }
         let replays: Vec<Replay> = conds.iter().map(|c| replay(&steps, c, &tmpfs, report, &case_id)).collect();
         let base = &replays[0];
         for rp in &replays {
